@@ -27,13 +27,25 @@ func (c *caseCtx) emit(format string, args ...interface{}) {
 
 func (c *caseCtx) thorough() bool { return c.tier == "thorough" }
 
-// scale returns q for the quick tier and t for the thorough tier.
+// scale returns q for the quick tier and t for the thorough tier. Counts (t > 50) of the thorough tier
+// are capped at VERIF_THOROUGH_X times the quick count (default 8, so that the thorough pass over all
+// properties ends within about two hours on 16 cores); VERIF_THOROUGH_X=0 removes the cap.
 func (c *caseCtx) scale(q, t int) int {
-	if c.thorough() {
-		return t
+	if !c.thorough() {
+		return q
 	}
-	return q
+	if t > 50 && thoroughX > 0 && q*thoroughX < t {
+		return q * thoroughX
+	}
+	return t
 }
+
+var thoroughX = func() int {
+	if v, err := strconv.Atoi(os.Getenv("VERIF_THOROUGH_X")); err == nil && v >= 0 {
+		return v
+	}
+	return 8
+}()
 
 var caseGens = map[string]func(*caseCtx){}
 
